@@ -450,8 +450,13 @@ func c16(c *report.Check) {
 			c.Internal("backend setup: " + err.Error())
 			return
 		}
-		// ---- 1. full path enumeration, every length 1..depth
-		for L := 1; L <= depth; L++ {
+		// ---- 1. full path enumeration, every length 1..depth (chord.Hash: 1..3 in both tiers; the
+		// colliding hash is the adversarial one and gets the extra level)
+		d := depth
+		if hm.Name != "deg" && d > 3 {
+			d = 3
+		}
+		for L := 1; L <= d; L++ {
 			total := 1
 			for i := 0; i < L; i++ {
 				total *= len(alpha)
@@ -586,7 +591,7 @@ func c16(c *report.Check) {
 	c.Set("failing_histories_explained_by_reported_minimal_history", explained)
 	c.Set("distinct_nontrivial", dist.N())
 	c.Set("alphabet", labels(alpha))
-	c.Set("rule", fmt.Sprintf("for each hash function {degenerate (a,ab collide; c not), chord.Hash}: every operation sequence of length 1..%d over the %d-operation alphabet run on fresh memory/aof/sqlite stores, every return value and a final full snapshot (Get+PrefixList of a,ab,c; ListKeys(\"\")) compared with the reference model; then BFS to depth %d over the alphabet plus put(k,nil) with de-duplication on (model state, nil/empty/RangeKeys observations of each backend), each transition replayed from an empty store; class = (last operation kind, its model result)", depth, len(alpha), bfsDepth))
+	c.Set("rule", fmt.Sprintf("for each hash function {degenerate (a,ab collide; c not), chord.Hash}: every operation sequence of length 1..%d (chord.Hash: 1..3) over the %d-operation alphabet run on fresh memory/aof/sqlite stores, every return value and a final full snapshot (Get+PrefixList of a,ab,c; ListKeys(\"\")) compared with the reference model; then BFS to depth %d over the alphabet plus put(k,nil) with de-duplication on (model state, nil/empty/RangeKeys observations of each backend), each transition replayed from an empty store; class = (last operation kind, its model result)", depth, len(alpha), bfsDepth))
 	c.Set("samples", dist.Samples)
 	c.Set("exhaustive", true)
 	c.Assume("single client, no concurrency (C18 covers that)",
